@@ -118,6 +118,9 @@ def run_pack(pid: str, tier: str, check: Callable[[Ctx], None], *, proj: Optiona
         proj = proj or Project()
         ctx = Ctx(proj, pid, tier)
         check(ctx)
+        if proj.renamed:
+            done = [f'{rel}:{q} ' + ','.join(f'{o}->{n}' for o, n in m.items() if o != '#params') for rel, per in sorted(proj.renamed.items()) for q, m in sorted(per.items())]
+            ctx.notes.append('local names alpha-converted to the reference vocabulary before analysis (sa/canon.py): ' + '; '.join(done)[:1500])
         floor_errors = []
         for rid, floor in ctx.floors.items():
             n = sum(1 for o in ctx.obligations if o.rule == rid)
